@@ -82,7 +82,7 @@ CHECKS = {"C06": C06, "C03": C03}
 
 class C04(DimwiseCheck):
     pid = "C04"
-    runs = {"quick": 1500, "thorough": 20000}
+    runs = {"quick": 1800, "thorough": 20000}
     budget_s = {"quick": 80.0, "thorough": 800.0}
     rule = ("schedule = strategy configuration + benefit answers (as C06); the integrand carries exactness probes as extra output "
             "components (basis functions and a random combination of the initial (lmin,lmax) sparse-grid space; affine functions with the "
@@ -90,10 +90,24 @@ class C04(DimwiseCheck):
             "combined interpolant at seeded points are compared with the analytic values. distinct_nontrivial counts distinct refined "
             "structures on which exactness was checked")
     expected_probes = ["rebalancing", "new_lmax"]
+    real = REAL + ["SpatiallyAdaptiveExtendScheme", "RefinementObjectExtendSplit", "SpatiallyAdaptiveCellScheme", "RefinementObjectCell", "TrapezoidalGrid"]
 
     def gen(self, rk, tier, idx):
         r = stream(rk, "cfg")
+        strategy = r.choice(["dimension_wise"] * 6 + ["extend_split"] * 3 + ["cell"])
+        if strategy != "dimension_wise":
+            from engines import extendsplit_sim as ES
+            cfg = ES.gen_cfg(r, tier) if strategy == "extend_split" else ES.gen_cell_cfg(r, tier)
+            cfg["strategy"] = strategy
+            cfg["boundary"] = True      # multilinear functions do not vanish on the boundary
+            if strategy == "extend_split" and (cfg["lmin"] == cfg["lmax"] or (cfg["version"] in (1, 2) and cfg["lmin"] >= 2)):
+                cfg["automatic"] = False    # these combinations raise inside the benefit estimate (known findings of C07)
+            p = stream(rk, "probes")
+            cfg["probes"] = [["ml", [[round(p.uniform(-2, 2), 3), round(p.uniform(-2, 2), 3)] for _ in range(cfg["dim"])]] for _ in range(3)] + \
+                            DS.linear_probes(p, cfg["dim"], 1)
+            return {"config": cfg, "ops": []}
         cfg = DS.gen_cfg(r, tier)
+        cfg["strategy"] = strategy
         if r.random() < 0.15:
             cfg["boundary"] = False
             cfg["modified_basis"] = True
@@ -108,9 +122,23 @@ class C04(DimwiseCheck):
     def monitors(self):
         return [DS.ExactnessMonitor()]
 
+    def simplify(self, s):
+        st = s["config"].get("strategy", "dimension_wise")
+        if st == "dimension_wise":
+            return DS.simplify_cfg(s)
+        if st == "extend_split":
+            from engines import extendsplit_sim as ES
+            return (c for c in ES.simplify_cfg(s) if len(c["config"]["probes"][0][1]) == c["config"]["dim"])
+        return []
+
     def execute(self, sched, ctx):
         cfg = sched["config"]
-        sim = DS.DimwiseSim(cfg, sched["rk"], ctx, self.monitors())
+        st = cfg.get("strategy", "dimension_wise")
+        if st == "dimension_wise":
+            sim = DS.DimwiseSim(cfg, sched["rk"], ctx, self.monitors())
+        else:
+            from engines import extendsplit_sim as ES
+            sim = (ES.ExtendSplitSim if st == "extend_split" else ES.CellSim)(cfg, sched["rk"], ctx, self.monitors())
         sim.build(probes=cfg["probes"])
         try:
             sim.perform(tol=-1.0, max_evaluations=None, stop_after=cfg["evals"])
